@@ -11,7 +11,7 @@ import vlib
 from vlib import glist
 from checks import ledger_common as lc
 
-MODE = 3
+MODE = 11     # reads vs specification, roots, stored code hash
 
 
 def gen_base(r):
@@ -238,6 +238,7 @@ def run(ctx):
         groups += [perm_group(r, exhaustive=True) for _ in range(2 if ctx.quick else 40)]     # all 24 orders of 4 writes
         groups += [perturb_group(r) for _ in range(nq)]
         groups += [noop_group(r) for _ in range(nn)]
+        groups += [lc.scen_reverted_setcode_root(r) for _ in range(8 if ctx.quick else 100)]
         tot = {}
         step = 150
         for s in range(0, len(groups), step):
